@@ -95,7 +95,7 @@ Print Assumptions c15_table_closed.
    (b) the lemmas behind the justifications: the sweep's slice expression is in range when the
        length the code uses does not exceed the capacity of the list (Inv: counter = list length)
        and offset + batch does not overflow int; a range index is in range; x[:0] is valid; the
-       market hook's UpdatePriceList does not panic for window size >= 2 (C17).
+       market hook's UpdatePriceList does not panic for window size >= 1 (after fix b0fc61e) (C17).
    partial: JStoreWrite / JBand leaves and reads are modelled as total (protobuf decoding of stored
    records, ibc send), JKnownFinding leaves are the classes kf_C15_1 / kf_C15_3. *)
 Theorem c15_unwrapped_total_partial :
@@ -105,7 +105,7 @@ Theorem c15_unwrapped_total_partial :
       exists items e, sweep_slice zero l cap counter off batch = Some (items, e) /\ 0 <= e <= counter) /\
   (forall (A : Type) (l : list A) i, (i < length l)%nat -> exists x, nth_z l i = Some x) /\
   (forall cap, 0 <= cap -> go_slice_ok cap 0 0 = true) /\
-  (forall n gap ops, 2 <= n -> exists t', mrun n gap None ops = Ok t').
+  (forall n gap ops, 1 <= n -> exists t', mrun n gap None ops = Ok t').
 Proof.
   split; [|split; [|split; [|split]]].
   - intros l Hl. pose proof unwrapped_leaves_table as H. rewrite forallb_forall in H. exact (H l Hl).
@@ -148,10 +148,11 @@ Theorem c15_slice_overflow_refuted :
 Proof. exists 1, int_max. vm_compute. repeat split; intro; discriminate. Qed.
 Print Assumptions c15_slice_overflow_refuted.
 
-(* the market hook (unwrapped) panics for window size 1 - C17's finding seen from C15 *)
-Theorem c15_market_refuted : exists gap ops, mrun 1 gap None ops = Panic.
-Proof. exists 10, [Sample 20 5; Sample 40 6]. vm_compute. reflexivity. Qed.
-Print Assumptions c15_market_refuted.
+(* the market hook (unwrapped) used to panic for window size 1 - C17's finding seen from C15;
+   repaired by fix commit b0fc61e: the same history now runs (witness kept as a regression) *)
+Theorem c15_market_n1_fixed : exists t', mrun 1 10 None [Sample 20 5; Sample 40 6] = Ok t'.
+Proof. eexists. vm_compute. reflexivity. Qed.
+Print Assumptions c15_market_n1_fixed.
 
 (* ---- non-vacuity ---- *)
 (* the semantics on a real table row: the rewards hook has no leaf outside its wrap, so it
